@@ -272,6 +272,16 @@ def _effects(stmts, handle=None):
             out.extend(_effects(st.orelse, handle))
         elif isinstance(st, ast.Pass):
             continue
+        elif isinstance(st, ast.Try) and not st.finalbody:
+            out.extend(_effects(st.body, handle))               # flattened like a branch: the body, then every handler, in source order
+            for h in st.handlers:
+                out.extend(_effects(h.body, handle))
+            out.extend(_effects(st.orelse, handle))
+        elif isinstance(st, ast.Raise):
+            calls = []
+            if st.exc is not None:
+                _calls_in(st.exc, calls, handle)                # building the exception; leaving the function touches nothing
+            out.extend(("call", "", n) if k == "call" else (k, n) for k, n in calls)
         else:
             out.append(("unknown", type(st).__name__))
     return out
